@@ -536,6 +536,10 @@ pub fn render_ctor(spec: &EnumSpec, vi: usize, fields: &[String]) -> String {
 
 /// Debug text (derived `Debug`) of variant `vi` whose fields have the given Debug texts.
 pub fn debug_text(v: &VariantSpec, fields: &[String]) -> String {
+    if v.kind.nfields() == 0 {
+        // derived Debug prints `X` for `X`, `X()` and `X {}`
+        return v.ident.clone();
+    }
     match &v.kind {
         Kind::Unit => v.ident.clone(),
         Kind::Tuple(_) => format!("{}({})", v.ident, fields.join(", ")),
